@@ -6,6 +6,9 @@ INTS = ["0", "1", "2", "3", "-1", "7", "12"]
 GROUPS = ["G", "H", "default", "apply-w-group-0", "map-w-group-0", "start-group-0", "start-group-1", "nope", "a-b"]
 PRINTABLE = [chr(c) for c in range(33, 127)] + list("äßλж→✓")
 ENV_OPS = ("@release", "@spin")
+# commands for which a huge integer is an id / a size, not a number of tasks to create (asking a pool for 10**40 tasks is a
+# busy loop by the method's own definition, through the control interface exactly as through a direct call)
+BIG_OK = ("cancel", "pool-size", "cancel-group", "get-group-ids", "cancel-all", "is-locked", "lock")
 
 
 def good_value(rng, p):
@@ -140,7 +143,7 @@ def malformed_line(rng, cmds):
         cmd + " '" + rng.choice(GROUPS),
         cmd + " (1, 2)",
         cmd + " \"\"",
-        cmd + " " + "9" * 40,
+        cmd + " " + ("9" * 40 if cmd in BIG_OK else "5"),
         cmd + " -" + "x" * rng.randint(2, 30),
         cmd + "\t" + rng.choice(INTS),
         "=" + cmd,
